@@ -387,3 +387,6 @@ func (k *Kernel) PokeAllEpolls() {
 // SockFaulted reports whether an injected (non-retryable) fault fired on the
 // descriptor of this endpoint.
 func (k *Kernel) SockFaulted(s *Sock) bool { return s != nil && s.file != nil && k.faulted[s.file] }
+
+// UDPInjectCount is the number of datagrams injected so far (the next one gets this plus one as its id).
+func (k *Kernel) UDPInjectCount() int { return k.nextDgram }
